@@ -1,8 +1,15 @@
 """C11 -- OUTPUT4 / OUTPUT2 decoders (partial claim).
 
 Every rule is decided on values: the readers, skippers and loaders are walked by the consumption evaluator (c11_consume.Walker), formats come
-from the per-key-width tables of c11_fmt; nothing depends on the names of locals, on temporaries, on branch layout or on which helper a
-statement lives in."""
+from the per-key-width tables of c11_fmt; nothing depends on the names of locals, on temporaries, on branch layout, on loop form or on which
+helper a statement lives in.
+
+Anchors are the public entry points and the functions the property names (`_loadop4_*`, `_skipop4_*`, `_getkey`, `rdop2nt`, `rdop2record`,
+`rdop2tabheaders`, `rdop2matrix`, `skipop2matrix`, `skipop2record`, `rdop2dynamics`, `directory`, `rdop2mats`, `dir` / `dctload` / `listload`,
+`_op2open`, `_op4open_read`).  Private helpers are never looked up by name: the readers a loader hands a matrix to are found where the
+loader *enters* them (through a local that holds the selected reader or in an if / elif chain alike), the functions a reader is handed to
+allocate / store / finish by the calls that pass the matrix along, the roles of their arguments by what the simplest store function does
+with them, the name filter of `rdop2mats` by reachability, format attributes by the decodes that use them."""
 from __future__ import annotations
 
 import ast
@@ -49,6 +56,14 @@ def _w4(ctx, name, **kw):
     return _walk(ctx, OP4, "OP4", "OP4." + name, **kw)
 
 
+def _bound(ctx, ok, text, where):
+    """a sentinel on what a rule could bind: not a property verdict - when it is not met the rule could not bind (exit 2)"""
+    if ok:
+        ctx.ok(text, where, nontrivial=False)
+    else:
+        ctx.error(text, where)
+
+
 def _short(q):
     return q.split(".")[-1]
 
@@ -74,9 +89,22 @@ def _path_oracle(path):
     return force
 
 
+def _entered_readers(w):
+    """the functions a loader enters to read the matrix: called from the loader itself, touching the file, looping over columns ->
+    [(FunctionDef, selection path)] - whether they are called through a local that holds the selected one or written out in branches"""
+    out = []
+    for e in w.events:
+        if e[0] != "enter" or e[3] != 0 or e[1] not in w.effects:
+            continue
+        if not any(isinstance(n, (ast.While, ast.For)) for n in ast.walk(e[1])):
+            continue
+        path = tuple((c, pol) for c, pol in e[2] if _rat(c) and not (C.truth_of(c) is not None))
+        out.append((e[1], path))
+    return out
+
+
 def _readers(ctx, loader):
-    """the readers a loader selects between, found at its call through the selected function:
-    [{name, fn, paths: [selection path, ...], w: the loader walked with that reader, layout}]"""
+    """the readers a loader selects between: [{name, fn, paths: [selection path, ...], w: the loader walked with that reader, layout}]"""
     cache = ctx.__dict__.setdefault("_c11_readers", {})
     if loader in cache:
         return cache[loader]
@@ -84,25 +112,20 @@ def _readers(ctx, loader):
     w0 = _w4(ctx, loader, tag="discover", no_inline=SKIPPERS)
     if w0 is None:
         return out
-    disp = [e for e in w0.events if e[0] == "dispatch"]
-    if len(disp) != 1:
-        ctx.error(f"{loader}: call of the selected reader", w0.fn, {"calls through a selected function": len(disp)})
+    ents = _entered_readers(w0)
+    if not ents:
+        ctx.error(f"{loader}: the readers it hands the matrix to", w0.fn)
         return out
-    for path, leaf in _phi_paths(disp[0][1]):
-        nm = C.sym_name(leaf) or ""
-        short = nm.split(".")[-1]
-        if not ctx.src.has_func(OP4, "OP4." + short):
-            ctx.error(f"{loader}: selected reader", disp[0][2], repr(leaf))
-            continue
-        fn = ctx.src.func(OP4, "OP4." + short)
+    for fn, path in ents:
         old = [r for r in out if r["fn"] is fn]
         if old:
             old[0]["paths"].append(path)
             continue
-        w = _w4(ctx, loader, tag="reader:" + short, force=_path_oracle(path), no_inline=SKIPPERS)
+        ctx.src.func(OP4, "OP4." + fn.name)
+        w = _w4(ctx, loader, tag="reader:" + fn.name, force=_path_oracle(path), no_inline=SKIPPERS)
         if w is None:
             continue
-        out.append({"name": short, "fn": fn, "paths": [path], "w": w, "layout": _layout(w, fn), "select": disp[0][1]})
+        out.append({"name": fn.name, "fn": fn, "paths": [path], "w": w, "layout": _layout(w, fn)})
     return out
 
 
@@ -252,13 +275,6 @@ def _lv_in(v, frame):
     return out
 
 
-def _in_frame(e_frame, frame):
-    return e_frame is not None and e_frame.equals(frame)
-
-
-def _frame_of(atom_desc):
-    return C._arg(atom_desc[2][0])
-
 
 def _is_sub_frame(fid, root):
     """fid is root or a frame nested in it"""
@@ -350,7 +366,7 @@ def _check_site(ctx, q, c, tbs, extra=None, site_label="", mtype=None, label=Non
             if rest and rest[0] is not None:
                 # words per value (op4): a value occupies wper words of the key width
                 wper = T.numval(C.norm(rest[0]), tb)
-                bi = T.numval(F.sym("self._bytes_i"), tb)
+                bi = F.const(bits // 8)         # a word of the key width
                 ok = wper is not None and bi is not None and wper.is_const() and bi.is_const() and C.same(wper * bi, bnum)
                 ctx.check(ok, f"{nm} [{key}, {bits}-bit keys]: a value occupies `wper` = {wper!r} words of {bi!r} bytes", node,
                           None if ok else {"bytes per value": repr(C.norm(bnum))})
@@ -425,7 +441,7 @@ def r1_cutover_pairs(ctx):
             if name == "rdop2matrix" and len(w.fn.args.args) > 1:
                 mtype = F.fn("idx", F.sym(w.fn.args.args[1].arg), F.const(4))      # the type field of the trailer
             _check_site(ctx, "OP2." + name, c, tbs["op2"], site_label=f" (site {i + 1})" if len(w.cutovers) > 1 else "", mtype=mtype)
-    ctx.check(n4 == 3 and n2 >= 4, f"cut-over rule bound to {n4} op4 sites and {n2} op2 sites", OP4 + ":1", nontrivial=False)
+    _bound(ctx, n4 == 3 and n2 >= 3, f"cut-over rule bound to {n4} op4 sites (one per binary reader) and {n2} op2 sites (matrix, records, DYNAMICS)", OP4 + ":1")
 
 
 # ------------------------------------------------------------------------------------------------------------------ R2
@@ -508,46 +524,83 @@ def r2_declared_sizes(ctx):
             nsites += 1
             ctx.check(ok, f"{n.split('/')[-1]}: the bytes read for a struct decode equal the size of its format, with 32- and 64-bit keys, and the "
                           "decoded items are used within their number", e[3], bad)
-    ctx.check(nsites >= 40, f"decode-size rule bound to {nsites} struct decodes on the walked paths", fn2, nontrivial=False)
-    # ---- declared attributes (the state named by the property's anchors)
+    _bound(ctx, nsites >= 40, f"decode-size rule bound to {nsites} struct decodes on the walked paths", fn2)
+    # ---- declared sizes: an attribute that holds the number of bytes handed to a precompiled struct (found at the decodes, whatever the
+    # two attributes are called) equals the size of that struct, which decodes whole words of the key width as integers
+    pairs = []
+    for what, n, w in walks:
+        if what != "op4":
+            continue
+        for e in w.events:
+            if e[0] != "unpack":
+                continue
+            pf, nb = C.fn_parts(e[1]) if _rat(e[1]) else None, _bytes_of(e[2])
+            if pf is None or pf[0] != "structof" or nb is None or not (C.sym_name(nb) or "").startswith("self.") or not (C.sym_name(pf[1][0]) or "").startswith("self."):
+                continue
+            k = (C.sym_name(pf[1][0]), C.sym_name(nb))
+            if k not in pairs:
+                pairs.append(k)
+    _bound(ctx, len(pairs) >= 4, f"declared-size rule bound to {len(pairs)} (struct, byte count) attribute pairs of the op4 reader", fn4)
     for bits, label, word in ((64, "64-bit", 8), (32, "32-bit", 4)):
         tb = tbs["op4"][bits]
-        for nm, cnt in (("i", 1), ("ii", 2), ("iii", 3), ("iiii", 4)):
-            txt = T.strval(tb.get(f"self._Str_{nm}"), tb)
-            b = T.numval(tb.get(f"self._bytes_{nm}"), tb)
+        for sname, bname in sorted(pairs):
+            txt = T.strval(tb.get(sname), tb)
+            b = T.numval(tb.get(bname), tb)
             si = T.struct_items(txt)
             if si is None or b is None or not b.is_const() or any(c == "%d" for c, _k in si[1]):
-                ctx.error(f"op4 {label}: _Str_{nm} / _bytes_{nm}", fn4, {"format": txt, "bytes": repr(b)})
+                ctx.error(f"op4 {label}: {sname[5:]} / {bname[5:]}", fn4, {"format": txt, "bytes": repr(b)})
                 continue
-            n = sum(c for c, _k in si[1])
+            cnt = sum(c for c, _k in si[1])
             size = sum(c * STRUCT_SIZE[k] for c, k in si[1])
-            ok = size == b.const_value() and n == cnt and all(STRUCT_SIZE[k] == word and STRUCT_KIND[k] == "int" for _c, k in si[1])
-            ctx.check(ok, f"op4 {label}: _bytes_{nm} = {b!r} equals the size of its struct format ({cnt} x {word} bytes)", fn4,
+            ok = size == b.const_value() and all(STRUCT_SIZE[k] == word and STRUCT_KIND[k] == "int" for _c, k in si[1])
+            ctx.check(ok, f"op4 {label}: {bname[5:]} = {b!r} equals the size of its struct format {sname[5:]} ({cnt} x {word} bytes, integers)", fn4,
                       None if ok else {"format": txt.replace(T.ENDIAN, ""), "bytes": repr(b)})
-        sr, srf, bsr = T.strval(tb.get("self._str_sr"), tb), T.strval(tb.get("self._str_sr_fromfile"), tb), T.numval(tb.get("self._bytes_sr"), tb)
-        si, dt = T.struct_items(sr), T.dtype_of(srf)
-        if si is None or dt is None or bsr is None or not bsr.is_const():
-            ctx.error(f"op4 {label}: _str_sr / _str_sr_fromfile / _bytes_sr cannot be resolved", fn4, {"struct": sr, "numpy": srf, "bytes": repr(bsr)})
-        else:
-            ok = len(si[1]) == 1 and STRUCT_SIZE[si[1][0][1]] == dt[2] == bsr.const_value() and STRUCT_KIND[si[1][0][1]] == NP_KIND[dt[1]] == "float"
-            ctx.check(ok, f"op4 {label}: 'single-precision word' struct code, numpy dtype and byte count agree", fn4, {"struct": sr, "numpy": srf, "bytes": repr(bsr)})
         wpd = T.numval(tb.get("self._wordsperdouble"), tb)
-        if wpd is None or bsr is None or not wpd.is_const() or not bsr.is_const():
-            ctx.error(f"op4 {label}: _wordsperdouble cannot be resolved", fn4, {"wordsperdouble": repr(wpd), "bytes_sr": repr(bsr)})
+        if wpd is None or not wpd.is_const():
+            ctx.error(f"op4 {label}: _wordsperdouble cannot be resolved", fn4, {"wordsperdouble": repr(wpd)})
         else:
-            ok = wpd.const_value() * bsr.const_value() == 8
-            ctx.check(ok, f"op4 {label}: words per double = 8 / word size", fn4, {"wordsperdouble": repr(wpd), "bytes_sr": repr(bsr)})
-    tb = tbs["op4"][32]
-    dr, drf = T.strval(tb.get("self._str_dr"), tb), T.strval(tb.get("self._str_dr_fromfile"), tb)
-    si, dt = T.struct_items(dr), T.dtype_of(drf)
-    if si is None or dt is None:
-        ctx.error("op4: _str_dr / _str_dr_fromfile cannot be resolved", fn4, {"struct": dr, "numpy": drf})
+            ok = wpd.const_value() * word == 8
+            ctx.check(ok, f"op4 {label}: words per double = 8 / word size", fn4, {"wordsperdouble": repr(wpd), "word": word})
+    # ---- the two precisions of the op4 reals, as the dense reader decodes them (whatever the attributes that hold the formats are called):
+    # a single-precision value is one word of the key width, a double 8 bytes; struct code and numpy dtype are reals of that size and carry
+    # the detected byte order
+    dense = [rd for rd in _readers(ctx, "_loadop4_binary") if rd["layout"] == "dense"]
+    site = None
+    if len(dense) == 1:
+        cols = C.loops_of_call(dense[0]["w"], dense[0]["fn"])
+        sites = [c for c in dense[0]["w"].cutovers if any(_is_sub_frame(c["frame"], lp.frame) for lp in cols)]
+        site = sites[0] if len(sites) == 1 else None
+    fp_ = C.fn_parts(site["fmt"]) if site is not None and _rat(site["fmt"]) else None
+    if fp_ is None or fp_[0] not in ("fmt", "mod") or C.norm(site["count_ff"]).is_zero():
+        ctx.error("op4: formats of the reals at the cut-over of the dense reader", fn4)
     else:
-        ok = len(si[1]) == 1 and si[1][0] == ("%d", "d") and dt[1:] == ("f", 8)
-        ctx.check(ok, "op4: double struct code and numpy dtype agree (d / f8)", fn4, {"struct": dr, "numpy": drf})
-    for nm in ("_str_sr", "_str_dr", "_str_sr_fromfile", "_str_dr_fromfile"):
-        ok = all((T.strval(tbs["op4"][b].get("self." + nm), tbs["op4"][b]) or "").startswith(T.ENDIAN) for b in (32, 64))
-        ctx.check(ok, f"op4: {nm} carries the detected byte order", fn4, nontrivial=False)
+        lvs = C.leaves([fp_[1][0], site["dtype"], site["nbytes"] / site["count_ff"]])
+        single = [v for path, v in lvs if len(path) == 1 and path[0][1] and (C.fn_parts(path[0][0]) or ("",))[0] == "odd"]
+        double = [v for path, v in lvs if len(path) == 1 and not path[0][1] and (C.fn_parts(path[0][0]) or ("",))[0] == "odd"]
+        if len(single) != 1 or len(double) != 1:
+            ctx.error("op4: the single / double precision formats are not selected by the parity of the matrix type", fn4, len(lvs))
+        else:
+            texts = {}
+            for bits, label, word in ((64, "64-bit", 8), (32, "32-bit", 4)):
+                tb = tbs["op4"][bits]
+                sr, srf, bsr = T.strval(single[0][0], tb), T.strval(single[0][1], tb), T.numval(C.norm(single[0][2]), tb)
+                si, dt = T.struct_items(sr), T.dtype_of(srf)
+                if si is None or dt is None or bsr is None or not bsr.is_const():
+                    ctx.error(f"op4 {label}: single-precision struct format / numpy dtype / byte count cannot be resolved", fn4, {"struct": sr, "numpy": srf, "bytes": repr(bsr)})
+                else:
+                    ok = len(si[1]) == 1 and STRUCT_SIZE[si[1][0][1]] == dt[2] == bsr.const_value() == word and STRUCT_KIND[si[1][0][1]] == NP_KIND[dt[1]] == "float"
+                    ctx.check(ok, f"op4 {label}: 'single-precision word' struct code, numpy dtype and byte count agree", fn4, {"struct": sr, "numpy": srf, "bytes": repr(bsr)})
+                texts[bits] = (sr, srf, T.strval(double[0][0], tb), T.strval(double[0][1], tb))
+            dr, drf = texts[32][2], texts[32][3]
+            si, dt = T.struct_items(dr), T.dtype_of(drf)
+            if si is None or dt is None:
+                ctx.error("op4: double-precision struct format / numpy dtype cannot be resolved", fn4, {"struct": dr, "numpy": drf})
+            else:
+                ok = len(si[1]) == 1 and si[1][0] == ("%d", "d") and dt[1:] == ("f", 8)
+                ctx.check(ok, "op4: double struct code and numpy dtype agree (d / f8)", fn4, {"struct": dr, "numpy": drf})
+            for i, nm in enumerate(("single-precision struct format", "single-precision numpy dtype", "double-precision struct format", "double-precision numpy dtype")):
+                ok = all((texts[b][i] or "").startswith(T.ENDIAN) for b in (32, 64))
+                ctx.check(ok, f"op4: the {nm} carries the detected byte order", fn4, nontrivial=False)
     for bits, label, isz in ((32, "32-bit", 4), (64, "64-bit", 8)):
         tb = tbs["op2"][bits]
         ib = T.numval(tb.get("self._ibytes"), tb)
@@ -719,7 +772,7 @@ def r3_sibling_decoders(ctx):
             if good:
                 for path, (t_, d_) in C.leaves([tot, dec]):
                     for bits in (32, 64):
-                        a, b = T.numval(C.norm(t_), tbs[bits]), T.numval(C.norm(d_ * F.sym("self._bytes_i")), tbs[bits])
+                        a, b = T.numval(C.norm(t_), tbs[bits]), T.numval(C.norm(d_ * (bits // 8)), tbs[bits])
                         if a is None or b is None or not C.same(a, b):
                             good, detail = False, {"bytes read per string": repr(a), "words counted x word size": repr(b), "keys": f"{bits}-bit", "binding": _leaf_label(path)}
             ctx.check(good, f"{reader}: the bytes read per string (header + data) equal the words counted off for it x the word size, for both "
@@ -794,14 +847,67 @@ def r3_sibling_decoders(ctx):
                   None if got else {"loader": repr(want)})
     # one values-per-line for every ASCII reader
     ok = len(perlines) >= 3 and all(C.same(perlines[0], x, whole_values=False) for x in perlines[1:])
-    ctx.check(ok, "the three ASCII readers split their blocks by the same values-per-line", ctx.src.func(OP4, "OP4._loadop4_ascii"),
-              None if ok else [repr(x)[:120] for x in perlines])
+    if len(perlines) >= 3 or len(res) == 4:
+        ctx.check(ok, "the three ASCII readers split their blocks by the same values-per-line", ctx.src.func(OP4, "OP4._loadop4_ascii"),
+                  None if ok else [repr(x)[:120] for x in perlines])
     ctx.__dict__["_c11_perline"] = perlines[0] if perlines else None
     # sentinel: every reader evaluated
-    ctx.check(len(res) == 4, f"sibling rule bound to {len(res)} string readers", OP4 + ":1", nontrivial=False)
+    _bound(ctx, len(res) == 4, f"sibling rule bound to {len(res)} string readers", OP4 + ":1")
 
 
 # ------------------------------------------------------------------------------------------------------------------ R4
+def _decoders(items):
+    """names of the functions applied directly to bytes / lines read from the file, anywhere in a consumption tree"""
+    out = set()
+
+    def scan(v):
+        if not _rat(v):
+            return
+        for d in C.walk_atoms(v):
+            if d[0] == "fn" and (d[1].startswith("call:") or d[1] in ("dec", "arr")):
+                for k in d[2]:
+                    if isinstance(k, str):
+                        continue
+                    a = C.fn_parts(C._arg(k))
+                    if a is not None and a[0] in ("rd", "ln", "lns"):
+                        out.add(d[1])
+                    elif a is not None and a[0] == "idx" and _rat(a[1][0]) and (C.fn_parts(a[1][0]) or ("",))[0] in ("rd", "ln"):
+                        out.add(d[1])
+
+    def walk(its):
+        for it in its:
+            if it[0] in ("B", "L", "abs"):
+                scan(it[1])
+            elif it[0] == "if":
+                scan(it[1])
+                walk(it[2])
+                walk(it[3])
+            elif it[0] == "loop":
+                scan(it[1].test)
+                walk(it[1].items)
+                for _p, v in it[1].carry:
+                    scan(v)
+    walk(items)
+    return out
+
+
+def _same_tree(ctx, a, b, text, where, whole_values=True, detail=None):
+    """obligation `the two consumption trees are equal`; when they differ *and* decode the file through different functions (one of them
+    unknown to the evaluator) the difference cannot be judged: analysis error, not violation"""
+    why = []
+    ok = C.same_items(a, b, whole_values=whole_values, why=why)
+    if not ok and _decoders(a) != _decoders(b):
+        ctx.error(text + " [the two sides decode what they read through different functions: " +
+                  ", ".join(sorted(_decoders(a) ^ _decoders(b))) + "]", where, {"first difference": why[:1]})
+        return False
+    d = None
+    if not ok:
+        d = {"first difference": why[:1]}
+        d.update(detail() if callable(detail) else (detail or {}))
+    ctx.check(ok, text, where, d)
+    return ok
+
+
 def _strip_exit(items):
     items = list(items)
     while items and items[-1][0] == "exit":
@@ -880,11 +986,10 @@ def r4_read_equals_skip(ctx):
     # ---- matrix
     rm, sm = _w2(ctx, "rdop2matrix"), _w2(ctx, "skipop2matrix")
     if rm is not None and sm is not None:
-        why = []
-        ok = C.same_items(_strip_exit(rm.top.items), _strip_exit(sm.top.items), why=why)
-        ctx.check(ok, "rdop2matrix and skipop2matrix consume the same bytes record by record, loop on the same keys (column key, record keys, two "
-                      "trailing keys, end-of-table) and stop at the same place [whole values: reclen = ibytes + n * bytes_per]", sm.fn,
-                  None if ok else {"first difference": why[:1], "read": C.show(rm.top.items)[:400], "skip": C.show(sm.top.items)[:400]})
+        _same_tree(ctx, _strip_exit(rm.top.items), _strip_exit(sm.top.items),
+                   "rdop2matrix and skipop2matrix consume the same bytes record by record, loop on the same keys (column key, record keys, two "
+                   "trailing keys, end-of-table) and stop at the same place [whole values: reclen = ibytes + n * bytes_per]", sm.fn,
+                   detail=lambda: {"read": C.show(rm.top.items)[:400], "skip": C.show(sm.top.items)[:400]})
         lps = C.loops_in(rm.top.items)
         rec = [lp for lp in lps if not C.loops_in(lp.items)]
         ok = len(rec) == 1 and C.total(rec[0].items, "B") is not None
@@ -912,7 +1017,7 @@ def r4_read_equals_skip(ctx):
         ctx.check(ok, "skipop2record: per record 4 + (reclen + 4) bytes, then the two trailing keys", sr.fn, None if ok else C.show(sr.top.items)[:400])
     if rr is not None:
         al = _after_loops(rr.top.items)
-        ctx.check(len(al) == 3, "rdop2record: three record loops (bytes, preallocated, list)", rr.fn, len(al), nontrivial=False)
+        _bound(ctx, len(al) >= 2, f"rdop2record: {len(al)} record loops (raw bytes; decoded values)", rr.fn)
         ntail = 0
         for lp, tail in al:
             why = []
@@ -988,7 +1093,7 @@ def r4_read_equals_skip(ctx):
             continue
         col = outer[0]
         # entry: what the loader read before the first column = the head of a record [4][3 words]
-        head = 4 + F.sym("self._bytes_iii")
+        head = {b: F.const(4 + 3 * (b // 8)) for b in (32, 64)}        # [4][3 words of the key width]
         # per column: payload + end marker + head of the next record
         body = C.tidy(col.items)
         if rd["layout"] == "dense":
@@ -1001,7 +1106,7 @@ def r4_read_equals_skip(ctx):
                 for path, (t_,) in C.leaves([tot]):
                     for bits in (32, 64):
                         a = T.numval(C.norm(t_), tbs[bits])
-                        b = T.numval(C.norm(nwp[0] * F.sym("self._bytes_i") + 4 + head), tbs[bits])
+                        b = T.numval(C.norm(nwp[0] * (bits // 8) + 4 + head[bits]), tbs[bits])
                         if a is None or b is None or not C.same(a, b):
                             good, detail = False, {"bytes read per column": repr(a), "nwords x word size + end marker + next head": repr(b), "keys": f"{bits}-bit",
                                                    "binding": _leaf_label(path)}
@@ -1011,7 +1116,7 @@ def r4_read_equals_skip(ctx):
             inner = C.loops_in(col.items, deep=False)
             rest = [it for it in body if it[0] != "loop"]
             tot = C.total(rest, "B")
-            ok = len(inner) == 1 and tot is not None and all(C.same(T.numval(C.norm(tot), tbs[b]), T.numval(C.norm(4 + head), tbs[b])) for b in (32, 64))
+            ok = len(inner) == 1 and tot is not None and all(C.same(T.numval(C.norm(tot), tbs[b]), 4 + head[b]) for b in (32, 64))
             ctx.check(ok, f"{reader}: per column the strings are followed by the end marker and the 4 + 3-word head of the next record", col.node,
                       None if ok else C.show(body)[:300])
         # loop condition: same stop as the skipper (column number - 1 < cols  <=>  column number <= cols), column number = header word 0,
@@ -1039,7 +1144,7 @@ def r4_read_equals_skip(ctx):
             ps = [(p, v) for p, v in col[0].carry if _rat(v) and _header_field(v, True) is not None and _header_field(v, True)[0] == "word"
                   and C.fn_parts(_header_field(v, True)[2])[1][2].equals(F.const(4))]
             ok = len(ps) == 1 and all(C.same(T.numval(C.norm(tail[0][1]), tbs[b]),
-                                             T.numval(F.fn("fin", ps[0][0]) - F.sym("self._bytes_iii") + 4, tbs[b])) for b in (32, 64))
+                                             F.fn("fin", ps[0][0]) - 3 * (b // 8) + 4) for b in (32, 64))
         ctx.check(ok, "_loadop4_binary: after the sentinel head (4 + 3 words) the rest of the record and its end marker are consumed "
                       "(reclen - 3 words + 4)", w.fn, None if ok else C.show(post)[:300])
         # the skipper is told the number of columns a listing reports
@@ -1094,10 +1199,10 @@ def _ascii_cases(ctx):
         return res
     a = _skip_args(la0, skf)
     line0 = [e[1] for e in la0.events if e[0] == "line" and C.fn_parts(e[1])[1][0].equals(la0.top.id)]
-    disp = [e for e in la0.events if e[0] == "dispatch"]
-    if a is None or not line0 or len(disp) != 1 or any(not _rat(v) for v in a.values()):
-        ctx.error("_loadop4_ascii: values passed to the skipper / column-header line / call of the selected reader", la0.fn,
-                  {"skip call": a is not None, "lines": len(line0), "selected calls": len(disp)})
+    ents = _entered_readers(la0)
+    if a is None or not line0 or not ents or any(not _rat(v) for v in a.values()):
+        ctx.error("_loadop4_ascii: values passed to the skipper / column-header line / readers entered", la0.fn,
+                  {"skip call": a is not None, "lines": len(line0), "readers": len(ents)})
         return res
     LINE0 = F.sym("LINE0")
     ren_l = C.renamer([(line0[0], LINE0)])
@@ -1105,7 +1210,7 @@ def _ascii_cases(ctx):
     to_arg = C.renamer([(F.sym(k), ren_l(v)) for k, v in a.items()] + [(F.fn("ln", sk0.top.id, F.const(0)), LINE0)])
     ren_s = to_arg
     # layout atoms: what the selection of the reader and the skipper's own branches test, outside the loops
-    conds = [ren_l(c) for path, _leaf in _phi_paths(disp[0][1]) for c, _t in path]
+    conds = [ren_l(c) for _fn, path in ents for c, _t in path]
     conds += [ren_s(c) for c in _test_values(sk0.top.items)]
     atoms = {}
     for c in conds:
@@ -1137,7 +1242,8 @@ def _ascii_cases(ctx):
         if wl is None or ws is None:
             return res
         res["cases"].append((asg, wl, ws))
-    res.update(ok=True, atoms=atoms, ren_l=ren_l, ren_s=ren_s, args=a, line0=line0[0], skf=skf)
+    back = C.renamer([(ren_l(v), F.sym(k)) for k, v in a.items() if C.as_atom(ren_l(v)) is not None])
+    res.update(ok=True, atoms=atoms, ren_l=ren_l, ren_s=ren_s, args=a, line0=line0[0], skf=skf, back=back)
     return res
 
 
@@ -1150,8 +1256,13 @@ def _read_path(w):
     return None
 
 
-def _show_case(asg, atoms):
-    return ", ".join(("" if v else "not ") + T.show_cond(atoms[k]) for k, v in sorted(asg.items()))
+def _show_case(asg, atoms, back=None):
+    """readable text of one case: the loader's header values are written as the skipper's parameters"""
+    def txt(v):
+        t = T.show_cond(back(v) if back is not None else v)
+        t = t.replace("call:int(idx(LINE0, slice(8, 16, None)))", "row field").replace("call:int(idx(LINE0, slice(0, 8, None)))", "column field")
+        return t
+    return ", ".join(("" if v else "not ") + "(" + txt(atoms[k]) + ")" for k, v in sorted(asg.items(), key=lambda kv: txt(atoms[kv[0]])))
 
 
 def r4_ascii_cases(ctx):
@@ -1165,16 +1276,14 @@ def r4_ascii_cases(ctx):
             ctx.error("_loadop4_ascii: scan of the matrix headers", wl.fn)
             continue
         mine, theirs = C.map_items(mine, cs["ren_l"]), C.map_items(theirs, cs["ren_s"])
-        why = []
-        ok = C.same_items(mine, theirs, whole_values=False, why=why)
-        reader = [e for e in wl.events if e[0] == "dispatch"]
-        rname = (C.sym_name(reader[0][1]) or "?").split(".")[-1] if len(reader) == 1 and _rat(reader[0][1]) else "?"
+        reader = _entered_readers(wl)
+        rname = reader[0][0].name if len(reader) == 1 else "?"
         n += 1
-        ctx.check(ok, f"_loadop4_ascii (reading with {rname}) and _skipop4_ascii consume the same lines - column header, per column and per string "
-                      "ceil(n / perline) data lines ((L + p - 1)//p == (L - 1)//p + 1) on the same decoded header fields, same column test, one "
-                      f"trailing line - in the case [{_show_case(asg, cs['atoms'])}]", cs["skf"],
-                  None if ok else {"first difference": why[:1], "read": C.show(mine)[:300], "skip": C.show(theirs)[:300]})
-    ctx.check(n >= 8, f"ASCII read = skip decided for {n} cases of the layout tests", cs["skf"], nontrivial=False)
+        _same_tree(ctx, mine, theirs, f"_loadop4_ascii (reading with {rname}) and _skipop4_ascii consume the same lines - column header, per column "
+                   "and per string ceil(n / perline) data lines ((L + p - 1)//p == (L - 1)//p + 1) on the same decoded header fields, same column "
+                   f"test, one trailing line - in the case [{_show_case(asg, cs['atoms'], cs['back'])}]", cs["skf"], whole_values=False,
+                   detail=lambda: {"read": C.show(mine)[:300], "skip": C.show(theirs)[:300]})
+    _bound(ctx, n >= 8, f"ASCII read = skip decided for {n} cases of the layout tests", cs["skf"])
 
 
 # ------------------------------------------------------------------------------------------------------------------ R5
@@ -1238,8 +1347,9 @@ def r5_listing_equals_read(ctx):
         np_ = C.fn_parts(name) if _rat(name) else None
         normalisers[loader] = np_[0] if np_ is not None and np_[0].startswith("call:self.") else None
     ok = len(normalisers) == 2 and len(set(normalisers.values())) == 1 and None not in normalisers.values()
-    ctx.check(ok, "both loaders normalise the matrix name with the same method before filtering (same names in listings, filters and reads of "
-                  "ASCII and binary files)", ctx.src.func(OP4, "OP4._loadop4_ascii"), None if ok else normalisers)
+    if len(normalisers) == 2:          # (a loader that could not be walked has been reported as an analysis error)
+        ctx.check(ok, "both loaders normalise the matrix name with the same method before filtering (same names in listings, filters and reads of "
+                      "ASCII and binary files)", ctx.src.func(OP4, "OP4._loadop4_ascii"), None if ok else normalisers)
     for q in ("dctload", "listload", "dir"):
         w = _w4(ctx, q, tag="nofile", follow=_no_file_helpers(ctx, OP4, "OP4"))
         if w is None:
@@ -1350,30 +1460,6 @@ def _loop_guard(guard, syms=("listonly", "patternlist")):
     return tuple((c, pol) for c, pol in guard if _rat(c) and any(d[0] == "s" and d[1] in syms for d in C.walk_atoms(c)))
 
 
-def _break_guards(lp):
-    """guards (relative to the loop body) under which a `break` is reached"""
-    out = []
-
-    def rec(items, g):
-        for it in items:
-            if it[0] == "exit" and it[1] == "break":
-                out.append(g)
-                return True
-            if it[0] == "exit":
-                return True
-            if it[0] == "if":
-                a = rec(it[2], g + ((it[1], True),))
-                b = rec(it[3], g + ((it[1], False),))
-                if a and b:
-                    return True
-                if a:
-                    g = g + ((it[1], False),)
-                elif b:
-                    g = g + ((it[1], True),)
-        return False
-    rec(lp.items, ())
-    return out
-
 
 # ------------------------------------------------------------------------------------------------------------------ R6
 def r6_cursor(ctx):
@@ -1393,7 +1479,8 @@ def r6_cursor(ctx):
             lo, up = p[1][0], p[1][1]
             ps = _lv_in(lo, lp.frame)
             ext = up - lo
-            upd = [v for q, v in lp.carry if len(ps) == 1 and q.equals(ps[0])]
+            # (on the paths that make the store: a cursor that only moves when something is stored is judged where it is stored)
+            upd = [C.assume(v, w.cell_guards.get(id(st), ())) for q, v in lp.carry if len(ps) == 1 and q.equals(ps[0])]
             n += 1
             # the slice starts at the cursor itself (a loop-carried position) and the cursor moves on by the length of the slice
             ok = len(ps) == 1 and lo.equals(ps[0]) and len(upd) == 1 and _rat(upd[0]) and C.same(upd[0] - ps[0], ext, whole_values=False)
@@ -1402,7 +1489,7 @@ def r6_cursor(ctx):
                       None if ok and cnt_ok else {"slice": f"[{lo!r} : {up!r}]", "cursor after the record": repr(upd[0]) if upd else None,
                                                   "values decoded": repr(sites[0]["count_ff"]) if len(sites) == 1 else None,
                                                   "consequence": "parts of a multi-part record overlap or leave gaps whenever the element size differs from the key width"})
-    ctx.check(n >= 1, f"cursor rule bound to {n} slice stores", fn, nontrivial=False)
+    _bound(ctx, n >= 1, f"cursor rule bound to {n} slice stores", fn)
     ok = False
     Np = F.sym("N")
     for k, v, _st in w.all_inits:
@@ -1468,7 +1555,7 @@ def r6b_matrix_rows(ctx):
                                            "expected": "(row number - 1) x reals per value"}
         ctx.check(good, "rdop2matrix: the first row of a record is its (1-based) row number - 1, times the reals per value the matrix was allocated "
                         "with (2 for the complex types)", st, detail)
-    ctx.check(n >= 1, f"matrix placement rule bound to {n} stores", w.fn, nontrivial=False)
+    _bound(ctx, n >= 1, f"matrix placement rule bound to {n} stores", w.fn)
     # the result is viewed as complex exactly when the rows were allocated by pairs of reals
     rets = [r for r in w.returns if _rat(r[0])]
     alloc = None
@@ -1783,14 +1870,14 @@ def _r6(ctx):
 
 
 RULES = [
-    ("C11-R1", r1_cutover_pairs, 45),
-    ("C11-R2", r2_declared_sizes, 45),
-    ("C11-R3", r3_sibling_decoders, 16),
-    ("C11-R4", r4_read_equals_skip, 24),
-    ("C11-R5", r5_listing_equals_read, 12),
-    ("C11-R6", _r6, 5),
-    ("C11-R7", r7_announced_format, 4),
-    ("C11-R8", r8_name_selection, 2),
+    ("C11-R1", r1_cutover_pairs, 50),
+    ("C11-R2", r2_declared_sizes, 75),
+    ("C11-R3", r3_sibling_decoders, 20),
+    ("C11-R4", r4_read_equals_skip, 34),
+    ("C11-R5", r5_listing_equals_read, 17),
+    ("C11-R6", _r6, 8),
+    ("C11-R7", r7_announced_format, 5),
+    ("C11-R8", r8_name_selection, 3),
 ]
 LEVEL = "other"
 EXPLANATION = ("Static, decided on values by a consumption evaluator (file-position bookkeeping per loop body and per branch): per-variant constants are "
@@ -1803,11 +1890,13 @@ MANIFEST = {
     "text": "Partial claim decided statically: (R1) struct/fromfile pairs at every cut-over site of op4 and op2 decode the same kind, size and count for 32- and "
             "64-bit keys and every `form`; (R2) every struct decode reads the size of its format in both key widths; (R3) nonbigmat/bigmat header arithmetic is "
             "the same function of the header words in the ASCII reader, binary reader and skipper, valid for every row below 65536, and the data read per "
-            "string is what the header announces; (R4) readers and skippers advance by the same bytes / lines per record and loop on the same keys; "
+            "string is what the header announces; (R4) readers and skippers advance by the same bytes / lines per record and loop on the same keys; the ASCII loader with the reader it "
+            "selects and the ASCII skipper consume the same lines in every case of the layout tests (one walk of each per truth assignment); "
             "(R5) listing = read for names, sizes, forms, types and name filtering; (R6) multi-part record cursor; (R7) announced ASCII format parsing; "
             "(R8) exact-name selection in OP2. Not decided: conformance to Nastran's format beyond what the repo's writer and sibling readers witness.",
     "note": "Trusted: CPython ast; struct / numpy type-code tables in verifier/c11_fmt.py; format invariants reclen = n * bytes_per (+ ibytes) for whole "
-            "records, reclen = key * ibytes for table records, reclen = (3 + nwords) * word size for op4 column records.",
+            "records, reclen = key * ibytes for table records, reclen = (3 + nwords) * word size for op4 column records; divisors that count values "
+            "per line / words per value are positive (-(-n // p) is read as ceil(n / p)).",
     "technique": "consumption evaluator (symbolic file-position bookkeeping) for reader/skipper/listing comparison; struct-format vs numpy-dtype table "
                  "agreement; symbolic header arithmetic",
 }
